@@ -201,7 +201,7 @@ def replay_case(o):
     op = ops().get(name[1])
     if op is None or "R1" not in i:
         return None
-    return {"prop": PROP, "kind": "op_check", "op": op.name, "api": op.kind, "inputs": i}
+    return {"prop": PROP, "kind": "op_check", "op": op.method, "api": op.kind, "inputs": i}
 
 
 def search_cases(o, seed):
@@ -212,6 +212,7 @@ def search_cases(o, seed):
 
 def native_cases(tier, seed):
     return [{"prop": PROP, "kind": "sweep", "inputs": {"seed": seed, "n": 3000 if tier == "quick" else 100000}},
+            {"prop": PROP, "kind": "sweep", "inputs": {"seed": seed + 7, "n": 700 if tier == "quick" else 20000, "debug_logging": True}},
             {"prop": PROP, "kind": "prefixes", "inputs": {}},
             {"prop": PROP, "kind": "breeze_steps", "inputs": {"seed": seed, "n": 150 if tier == "quick" else 5000}},
             {"prop": PROP, "kind": "op_sequences", "inputs": {"seed": seed, "n": 150 if tier == "quick" else 5000}}]
